@@ -49,6 +49,11 @@ def digest(x):
 def gen_case(job, seed):
     rng = random.Random("%s/%s" % (job.get("gseed", 0), seed))
     g = job.get("gen", "dag")
+    if g == "shape":
+        # exhaustive family of small shapes: the case number IS the index (n = 4), or a hashed sample of the family (n = 5)
+        n = job.get("shape_n", 4)
+        idx = seed if not job.get("shape_sample") else rng.randrange(len(defs.shape_family(n)))
+        return defs.gen_shape(idx, n)
     if g == "mix":
         g = "loop" if rng.random() < job.get("p_loop", 0.3) else "dag"
     m, inputs = GENS[g](rng, job.get("P"))
@@ -121,7 +126,7 @@ def conduct(job):
             case = dict(wf=wf, inputs=inputs, oseed=h64(job.get("gseed", 0), seed, "o") % 100000,
                         p_fail=job.get("p_fail", 0.2), exotic=job.get("exotic", 0.0))
             ack = job.get("ack_chain")
-            run = explore.make_run(case, ms, model=m, ack_chain=(ack if ack == "lazy" else bool(ack) and sched % 2 == 1))
+            run = explore.make_run(case, ms, model=m, ack_chain=(ack if ack in ("lazy", "mixed") else bool(ack) and sched % 2 == 1))
             hook = Injector(h64(job.get("gseed", 0), seed, sched, "inj"), job.get("ctl")) if job.get("ctl") else None
             pol = explore.Policy(pseed=h64(job.get("gseed", 0), seed, sched, "p"), lazy_pct=lazy)
             if hook is not None and (job.get("ctl") or {}).get("mid_req"):
